@@ -104,10 +104,10 @@ pub mod streaming_kzg {
 //@rw 1 /(?s)powers_of_tau\s*\.iter\(\)\s*\.take\(max_eval_points \+ 1\)/ => slice_take(&powers_of_tau, max_eval_points + 1).iter()
 //@closure |t| => |t: &Fr| -> (o: G2Affine) ensures o@ == f_mul(g2@, t@)
 //@end
-//@fn id=streaming.time.commit file=poly-commit/src/streaming_kzg/time.rs scope="impl<E: Pairing> CommitterKey<E>" name=commit props=C14,C08,C01
+//@fn id=streaming.time.commit file=poly-commit/src/streaming_kzg/time.rs scope="impl<E: Pairing> CommitterKey<E>" name=commit props=C14,C08,C01,C19
         pub fn commit(&self, polynomial: &[Fr]) -> (r: Commitment)
         ensures
-            r.0@ == msm(self.powers_of_g@, fviews(polynomial@), min(self.powers_of_g@.len(), polynomial@.len())),   // name=streaming.time.commit.value props=C14,C08
+            r.0@ == msm(self.powers_of_g@, fviews(polynomial@), min(self.powers_of_g@.len(), polynomial@.len())),   // name=streaming.time.commit.value props=C14,C08,C19
 //@body
 //@end
 
@@ -121,13 +121,13 @@ pub mod streaming_kzg {
 //@rw 1 /\.collect::<Vec<_>>\(\)/ => .collect::<Vec<Commitment>>()
 //@closure |p| => |p: &Vec<Fr>| -> (o: Commitment) ensures o.0@ == msm(self.powers_of_g@, fviews(p@), min(self.powers_of_g@.len(), p@.len()))
 //@end
-//@fn id=streaming.time.open file=poly-commit/src/streaming_kzg/time.rs scope="impl<E: Pairing> CommitterKey<E>" name=open props=C14,C01
+//@fn id=streaming.time.open file=poly-commit/src/streaming_kzg/time.rs scope="impl<E: Pairing> CommitterKey<E>" name=open props=C14,C01,C19
         pub fn open(&self, polynomial: &[Fr], evalualtion_point: &Fr) -> (r: (Fr, EvaluationProof))
         ensures
-            r.0@ == peval(fviews(polynomial@), evalualtion_point@, polynomial@.len()),   // name=streaming.time.open.evaluation_is_p_of_alpha props=C14,C01
+            r.0@ == peval(fviews(polynomial@), evalualtion_point@, polynomial@.len()),   // name=streaming.time.open.evaluation_is_p_of_alpha props=C14,C01,C19
             exists|q: Seq<FS>| #![trigger q.len()] q.len() == (if polynomial@.len() == 0 { 0 } else { polynomial@.len() - 1 })
                 && (forall|i: int| 0 <= i < q.len() ==> q[i] == horner(fviews(polynomial@), evalualtion_point@, (polynomial@.len() - 1 - i) as nat))
-                && r.1.0@ == msm(self.powers_of_g@, q, min(self.powers_of_g@.len(), q.len())),   // name=streaming.time.open.proof_commits_to_horner_quotient props=C14,C01
+                && r.1.0@ == msm(self.powers_of_g@, q, min(self.powers_of_g@.len(), q.len())),   // name=streaming.time.open.proof_commits_to_horner_quotient props=C14,C01,C19
 //@body
 //@rw 1 /let mut quotient = Vec::new\(\);/ => let mut quotient: Vec<Fr> = Vec::new();
 //@rw 1 /for &c in/ => for c__ in
